@@ -6,6 +6,7 @@ followed by the EncodedHeader record (PackInfo, UnpackInfo with the folder's CRC
 signature header points to.
 -/
 import SevenZ.Model.WriteSession
+import SevenZ.Model.AppendSession
 namespace SevenZ.Impl
 
 /-- `fd.read(block_size)` on an in-memory buffer: pieces of `bs` bytes, the last one shorter -/
@@ -54,5 +55,42 @@ def sessionArchiveEncoded {σ} (cfg : WConfig σ) (hcfg : HConfig σ) (ms : List
   let out := (sessionCompress cfg ms).1.out
   let (packedHdr, record) ← encodeHeader h hcfg out.length
   pure (sigHeaderBytes (out.length + packedHdr.length) record.length (crc32 record) ++ out ++ packedHdr ++ record)
+
+end SevenZ.Impl
+
+namespace SevenZ.Impl
+
+/-- the header object of an image whose header is raw, or encoded by a chain that leaves the bytes as they are
+    (Copy coder; the scripted stages copy / hold / lag of the correspondence stream `ws.eapp`): the packed stream of
+    the EncodedHeader record IS the raw header.  The folder CRC of the record, when present, must match
+    (archiveinfo.py `Header._read`, repair cfa832b). -/
+def headerOfImageIdEnc (base : Bytes) : Option Header := do
+  let (_, hdr0) ← locateHeader base
+  match readNextHeader hdr0 with
+  | .ok (.raw h) => some h
+  | .ok .empty => some {}
+  | .ok (.encoded st) =>
+    let p ← st.packinfo
+    let size ← p.packsizes.head?
+    let raw := (base.drop (32 + p.packpos)).take size
+    let f ← (st.folders.getD []).head?
+    if f.digestdefined ∧ f.crc ≠ some (crc32 raw) then none else
+    match readNextHeader raw with
+    | .ok (.raw h) => some h
+    | _ => none
+  | _ => none
+
+/-- the file after an append session in the default (encoded) header mode: new packed data from the end of the old
+    packed streams on (over the old packed header), then the packed new header, then the EncodedHeader record, the
+    signature header last; nothing truncates the file -/
+def appendArchiveEncoded {σ} (base : Bytes) (cfg : WConfig σ) (hcfg : HConfig σ) (ms : List WMember) : Option Bytes := do
+  let H ← headerOfImageIdEnc base
+  let (H', out) ← (if ms.isEmpty then some (H, ([] : Bytes)) else
+    (appendHeader H cfg ms).map (fun h => (h, (sessionCompress cfg ms).1.out)))
+  let pos := appendPos H
+  let (packedHdr, record) ← encodeHeader H' hcfg (pos - 32 + out.length)
+  let body := (base.take pos ++ List.replicate (pos - base.length) 0) ++ out ++ packedHdr ++ record
+  pure (sigHeaderBytes (pos + out.length + packedHdr.length - 32) record.length (crc32 record) ++ body.drop 32 ++
+    base.drop body.length)
 
 end SevenZ.Impl
